@@ -7,10 +7,14 @@ import (
 	"fmt"
 	"os"
 	"path/filepath"
+	"strings"
+	"sync"
 	"testing"
 	"time"
 
+	"github.com/superfly/litefs"
 	"github.com/superfly/litefs/verif/cluster"
+	"github.com/superfly/litefs/verif/crash"
 	"github.com/superfly/litefs/verif/gen"
 	"github.com/superfly/litefs/verif/pager"
 	"github.com/superfly/litefs/verif/pbt"
@@ -30,6 +34,7 @@ const (
 	KPrimary   = "primary"
 	KRead      = "read"
 	KQuiesce   = "quiesce"
+	KCrash     = "crash" // the node is killed at its N-th file-system step from now and comes back one plan step after that
 )
 
 type Step struct {
@@ -39,6 +44,7 @@ type Step struct {
 	Tx     pager.WalTx `json:"tx,omitempty"`
 	N      int         `json:"n,omitempty"`
 	Expiry bool        `json:"expiry,omitempty"`
+	At     string      `json:"at,omitempty"` // KCrash: count only steps with this label prefix
 }
 
 type DBCfg struct {
@@ -83,9 +89,14 @@ func genPlan(t *rapid.T) Plan {
 	}
 	ns := rapid.IntRange(3, 40).Draw(t, "nsteps")
 	txs := gen.Txs(t, ns, 600)
+	forceWrite := false
 	for i := 0; i < ns; i++ {
 		st := Step{Node: rapid.IntRange(1, nn-1).Draw(t, "node"), DB: rapid.IntRange(0, ndb-1).Draw(t, "db")}
-		switch k := rapid.IntRange(0, 29).Draw(t, "kind"); {
+		k := rapid.IntRange(0, 29).Draw(t, "kind")
+		if forceWrite {
+			k = 0
+		}
+		switch {
 		case k < 13:
 			st.Kind = KWrite
 			st.Tx = pager.WalTx{Tx: txs[i]}
@@ -93,14 +104,30 @@ func genPlan(t *rapid.T) Plan {
 			if rapid.IntRange(0, 4).Draw(t, "rep") == 0 {
 				st.Tx.Repeat = 1
 			}
+			if forceWrite {
+				// the transaction the armed node is going to be killed in: it commits, and
+				// often it makes the database much smaller
+				forceWrite = false
+				st.Tx.Rollback, st.Tx.NoWrite = false, false
+				if rapid.Bool().Draw(t, "shrink") {
+					st.Tx.NewSize = uint32(rapid.IntRange(1, 4).Draw(t, "shrink_to"))
+				}
+			}
 		case k < 15:
 			st.Kind, st.N = KCkpt, rapid.IntRange(0, 3).Draw(t, "ckpt")
 		case k < 17:
 			st.Kind = KJoin
 		case k < 20:
 			st.Kind, st.N = KCut, rapid.SampledFrom([]int{0, 1, 7, 40, 300, 5000, 70000}).Draw(t, "cutbytes")
-		case k < 22:
+		case k < 21:
 			st.Kind = KRestart
+		case k < 22:
+			st.Kind, st.N = KCrash, rapid.IntRange(1, 40).Draw(t, "crash_after")
+			if rapid.Bool().Draw(t, "crash_at?") {
+				st.At = rapid.SampledFrom([]string{"litefs:truncate", "litefs:write", "os:rename:PROCESSLTX", "os:create:PROCESSLTX", "os:openfile:APPLYLTX", "os:remove"}).Draw(t, "crash_at")
+				st.N = rapid.IntRange(1, 3).Draw(t, "crash_nth")
+			}
+			forceWrite = true
 		case k < 24:
 			st.Kind = KPause
 		case k < 25:
@@ -131,6 +158,44 @@ func runPlan(c *pbt.Case, p Plan) {
 	}
 	started := make([]bool, len(p.Nodes))
 	nodes := make([]*cluster.CNode, len(p.Nodes))
+	// kill -9 of a node at a step boundary of whatever it is doing (KCrash): a copy of
+	// its directory taken before that step executes is what the dead process leaves
+	var cmu sync.Mutex
+	recs := make([]*crash.Recorder, len(p.Nodes))
+	countdown := make([]int, len(p.Nodes))
+	crashAt := make([]string, len(p.Nodes))
+	crashImage := make([]string, len(p.Nodes))
+	crashLabel := make([]string, len(p.Nodes))
+	crashes := 0
+	for i := range recs {
+		i := i
+		recs[i] = &crash.Recorder{Enabled: true}
+		recs[i].OnPoint = func(label string) {
+			cmu.Lock()
+			defer cmu.Unlock()
+			if countdown[i] == 0 || !strings.HasPrefix(label, crashAt[i]) {
+				return
+			}
+			if countdown[i]--; countdown[i] > 0 {
+				return
+			}
+			n := nodes[i] // (no call into the store from here: the caller may hold its mutex)
+			if n == nil {
+				return
+			}
+			crashes++
+			img := filepath.Join(base, fmt.Sprintf("crash-%d-%d", i, crashes))
+			if crash.CopyDir(n.Dir, img) == nil {
+				crashImage[i], crashLabel[i] = img, label
+			}
+		}
+	}
+	litefs.SetVerifStepHook(func(db *litefs.DB, kind string, pgno uint32, internal bool) {
+		for _, r := range recs {
+			r.StepHook(db, kind, pgno, internal)
+		}
+	})
+	c.Cleanup(func() { litefs.SetVerifStepHook(nil) })
 	start := func(i int) {
 		nc := p.Nodes[i]
 		var filter []string
@@ -139,7 +204,12 @@ func runPlan(c *pbt.Case, p Plan) {
 				filter = append(filter, dbName(f))
 			}
 		}
-		n, err := cl.AddNode(fmt.Sprintf("n%d", i), cluster.NodeOpts{Candidate: nc.Candidate, Compress: p.Compress, Filter: filter, Prefetch: nc.Prefetch})
+		n, err := cl.AddNode(fmt.Sprintf("n%d", i), cluster.NodeOpts{Candidate: nc.Candidate, Compress: p.Compress, Filter: filter, Prefetch: nc.Prefetch, Configure: func(s *litefs.Store) {
+			cmu.Lock()
+			recs[i].Store = s
+			cmu.Unlock()
+			s.OS = recs[i].WrapOS(s.OS)
+		}})
 		if err != nil {
 			c.Failf("C01/setup", "start node %d: %v", i, err)
 		}
@@ -233,7 +303,34 @@ func runPlan(c *pbt.Case, p Plan) {
 
 	for si, st := range p.Steps {
 		c.Notef("step %d: %+v", si, st)
+		// nodes killed during the previous step come back on what they left behind
+		for i, n := range nodes {
+			cmu.Lock()
+			img, label := crashImage[i], crashLabel[i]
+			crashImage[i] = ""
+			cmu.Unlock()
+			if img == "" || n == nil || !n.Up || n.Store.IsPrimary() {
+				continue
+			}
+			n.Stop()
+			n.DirOverride = img
+			if err := n.Start(); err != nil {
+				c.Failf("C01/restart-failed", "step %d: node %s, killed before %q, failed to reopen the directory it left: %v", si, n.Name, label, err)
+			}
+			if paused[i] {
+				n.FC.Pause()
+			}
+			c.Label("crash-restart")
+			c.Labelf("crash-before:%s", label)
+			faultSince = true
+		}
 		switch st.Kind {
+		case KCrash:
+			if i := st.Node % len(nodes); nodes[i] != nil && nodes[i].Up && !nodes[i].Store.IsPrimary() {
+				cmu.Lock()
+				countdown[i], crashAt[i] = st.N, st.At
+				cmu.Unlock()
+			}
 		case KWrite:
 			pr := cl.Primary()
 			if pr == nil {
